@@ -34,6 +34,9 @@ func harnessC02a() {
 
 	c := &Client{config: host}
 	got, gotSet, err := c.checkProtoVersion(strconv.Itoa(ver))
+	vRecord("out.ver", ver)
+	vRecord("out.err", err != nil)
+	vRecord("out.got", got)
 
 	// reference: highest common version
 	common := false
